@@ -442,48 +442,11 @@ void execute_assignment(StatementExecutor *executor, Interpreter &interpreter,
     if (node->left && node->left->node_type == ASTNodeType::AST_ARRAY_REF) {
         // 配列要素への代入
 
-        // 右辺が構造体戻り値関数の場合の特別処理
-        if (node->right &&
-            node->right->node_type == ASTNodeType::AST_FUNC_CALL) {
-            try {
-                // 関数呼び出し結果を評価（戻り値は現在未使用だが、副作用のため実行）
-                interpreter.evaluate(node->right.get());
-                // 通常の数値戻り値の場合は通常処理を継続
-            } catch (const ReturnException &ret) {
-                if (ret.is_struct) {
-                    // v0.11.0 Week 3 Day 1: 構造体戻り値を配列要素に代入
-                    std::string array_name =
-                        interpreter.extract_array_name(node->left.get());
-                    std::vector<int64_t> indices =
-                        interpreter.extract_array_indices(node->left.get());
-
-                    if (indices.empty()) {
-                        throw std::runtime_error(
-                            "Cannot extract array index for struct return "
-                            "value assignment");
-                    }
-
-                    int64_t idx = indices[0]; // 1次元配列のみサポート
-
-                    debug_msg(DebugMsgId::INTERPRETER_STRUCT_REGISTERED,
-                              "Assigning struct return value to array element: "
-                              "%s[%lld]",
-                              array_name.c_str(), idx);
-
-                    debug_msg(DebugMsgId::GENERIC_DEBUG,
-                              "ReturnException struct_value: ");
-
-                    // 新しい関数を使用して配列要素に直接代入
-                    interpreter.assign_struct_to_array_element(
-                        array_name, idx, ret.struct_value);
-
-                    return;
-                } else {
-                    // その他の戻り値は再投げ
-                    throw;
-                }
-            }
-        }
+        // A function call on the right-hand side is NOT pre-evaluated here
+        // "to see whether it returns a struct": the single evaluation below
+        // ("右辺の評価") yields a struct return value as a struct TypedValue
+        // (or a ReturnException) and stores it into the element. Evaluating
+        // the call here as well ran its side effects twice.
 
         // v0.11.0 Week 3 Day 1: 右辺が構造体変数の場合を特別処理
         // tasks[0] = t のようなケース
@@ -591,6 +554,31 @@ void execute_assignment(StatementExecutor *executor, Interpreter &interpreter,
         try {
             TypedValue typed_rvalue =
                 interpreter.evaluate_typed_expression(node->right.get());
+            if (typed_rvalue.is_struct()) {
+                // 構造体戻り値を配列要素に代入 (tasks[0] = make_task())
+                std::string array_name =
+                    interpreter.extract_array_name(node->left.get());
+                std::vector<int64_t> indices =
+                    interpreter.extract_array_indices(node->left.get());
+
+                if (indices.empty()) {
+                    throw std::runtime_error(
+                        "Cannot extract array index for struct return "
+                        "value assignment");
+                }
+
+                int64_t idx = indices[0]; // 1次元配列のみサポート
+
+                debug_msg(DebugMsgId::INTERPRETER_STRUCT_REGISTERED,
+                          "Assigning struct return value to array element: "
+                          "%s[%lld]",
+                          array_name.c_str(), idx);
+
+                interpreter.assign_struct_to_array_element(
+                    array_name, idx, *typed_rvalue.struct_data);
+
+                return;
+            }
             if (typed_rvalue.is_floating()) {
                 is_floating = true;
                 float_rvalue = typed_rvalue.as_double();
@@ -625,20 +613,23 @@ void execute_assignment(StatementExecutor *executor, Interpreter &interpreter,
                           "element: %s[%lld]",
                           array_name.c_str(), idx);
 
-                std::cerr << "DEBUG: Struct assignment to array element: "
-                          << array_name << "[" << idx << "]" << std::endl;
-                std::cerr << "DEBUG: struct_type_name="
-                          << ret.struct_value.struct_type_name << std::endl;
-                std::cerr << "DEBUG: struct_members.size()="
-                          << ret.struct_value.struct_members.size()
-                          << std::endl;
+                if (debug_mode) {
+                    std::cerr << "DEBUG: Struct assignment to array element: "
+                              << array_name << "[" << idx << "]" << std::endl;
+                    std::cerr << "DEBUG: struct_type_name="
+                              << ret.struct_value.struct_type_name << std::endl;
+                    std::cerr << "DEBUG: struct_members.size()="
+                              << ret.struct_value.struct_members.size()
+                              << std::endl;
 
-                // 構造体データをデバッグ
-                for (const auto &member : ret.struct_value.struct_members) {
-                    std::cerr << "DEBUG: member[" << member.first
-                              << "] = " << member.second.value
-                              << " (assigned=" << member.second.is_assigned
-                              << ")" << std::endl;
+                    // 構造体データをデバッグ
+                    for (const auto &member :
+                         ret.struct_value.struct_members) {
+                        std::cerr << "DEBUG: member[" << member.first
+                                  << "] = " << member.second.value
+                                  << " (assigned=" << member.second.is_assigned
+                                  << ")" << std::endl;
+                    }
                 }
 
                 // 新しい関数を使用して配列要素に直接代入
@@ -687,14 +678,14 @@ void execute_assignment(StatementExecutor *executor, Interpreter &interpreter,
                 interpreter.assign_struct_member_array_element(
                     obj_name, member_name, index, node->right->str_value);
             } else {
-                TypedValue typed_value =
-                    interpreter.evaluate_typed(node->right.get());
-                if (typed_value.is_floating()) {
+                // The right-hand side was already evaluated above; reuse
+                // that value instead of evaluating the expression again.
+                if (is_floating) {
                     interpreter.assign_struct_member_array_element(
-                        obj_name, member_name, index, typed_value.as_double());
+                        obj_name, member_name, index, float_rvalue);
                 } else {
                     interpreter.assign_struct_member_array_element(
-                        obj_name, member_name, index, typed_value.as_numeric());
+                        obj_name, member_name, index, rvalue);
                 }
             }
             return;
